@@ -15,7 +15,7 @@ import sys, os, json, shutil, tempfile, re, time, hashlib
 from concurrent.futures import ProcessPoolExecutor, as_completed
 sys.path.insert(0, os.path.dirname(os.path.abspath(__file__)))
 from vlib import pipeline as P, gen
-from vlib.lexer import lex
+from vlib.lexer import lex, LexError
 from vlib.gen import code_toks, match_close, parse_fn
 from vlib.extract import ExtractError
 
@@ -139,7 +139,7 @@ def run_one(args):
         open(fpath, "w").write(src[:s] + rep + src[e:])
         try:
             em = P.build(repo_root=scratch)
-        except (ExtractError, gen.GenError) as ex:
+        except (ExtractError, gen.GenError, LexError) as ex:
             return (idx, "undecided", "generation: %s" % str(ex)[:120], [])
         path = os.path.join(scratch, "m.rs")
         open(path, "w").write("\n".join(em.lines))
@@ -164,13 +164,14 @@ def run_one(args):
 
 def main():
     argv = sys.argv[1:]
-    jobs, only, limit, out = 2, None, None, "/tmp/mutgen.jsonl"
+    jobs, only, limit, out, resume = 2, None, None, "/tmp/mutgen.jsonl", False
     while argv:
         a = argv.pop(0)
         if a == "--jobs": jobs = int(argv.pop(0))
         elif a == "--only": only = argv.pop(0)
         elif a == "--limit": limit = int(argv.pop(0))
         elif a == "--out": out = argv.pop(0)
+        elif a == "--resume": resume = True
     em0 = P.build()
     path0 = os.path.join(P.BUILD, "bcenv_mutgen_base.rs")
     open(path0, "w").write("\n".join(em0.lines))
@@ -198,10 +199,21 @@ def main():
     if limit:
         work = work[:limit]
     print("mutants: %d over %d functions; jobs=%d" % (len(work), len({w[6] for w in work}), jobs), flush=True)
-    meta = {w[0]: w for w in work}
     counts = {"killed": 0, "undecided": 0, "survived": 0}
+    if resume and os.path.exists(out):
+        done = set()
+        for l in open(out):
+            r = json.loads(l)
+            done.add((r["file"], r["line"], r["mutation"]))
+            counts[r["status"]] += 1
+        def _k(w):
+            src = open(os.path.join(P.REPO, "src", w[1])).read()
+            return (w[1], src.count("\n", 0, w[2]) + 1, w[5])
+        work = [w for w in work if _k(w) not in done]
+        print("resuming: %d already done, %d left" % (len(done), len(work)), flush=True)
+    meta = {w[0]: w for w in work}
     t0 = time.time()
-    with open(out, "w") as fo, ProcessPoolExecutor(max_workers=jobs) as ex:
+    with open(out, "a" if resume else "w") as fo, ProcessPoolExecutor(max_workers=jobs) as ex:
         futs = [ex.submit(run_one, w) for w in work]
         for n, fu in enumerate(as_completed(futs), 1):
             idx, status, info, obs = fu.result()
